@@ -1,5 +1,5 @@
 #!/usr/bin/env python3
-"""usage: tools/try_harmless.py <diff>...  -- apply each behaviour-preserving diff to /repo, run the quick checks of every
+"""usage: tools/try_harmless.py harmless/*.diff  -- apply each behaviour-preserving diff to /repo, run the quick checks of every
 property whose units read a touched file, undo; report VIOLATION (false alarm) / undecided / ok per diff."""
 import os, re, subprocess, sys, glob, json
 sys.path.insert(0, '/verif')
